@@ -16,10 +16,11 @@ EXPLANATION = (
     "of Maximum are normalised and compared - identical up to one hole, which must be a min / mean / max reducer "
     "respectively; the selection mask is (membership equals the per-row maximum) and (membership is positive); the "
     "centroid is sum(x*y)/sum(y) and the bisector is built from the normalised cumulative sum; every reduction runs "
-    "along the sampling axis (1); Op.midpoints is start + (i + 0.5) * (end - start) / resolution; elementwise safety"
+    "along the sampling axis (1); Op.midpoints is start + (i + 0.5) * (end - start) / resolution (normal forms, integer index range); elementwise safety; "
+    "every parameter of the integral defuzzifiers and of Op.midpoints is read (S6)"
 )
 ASSUMPTIONS = ["the centroid/bisector values, range membership and the translation law are numeric and not decided"]
-FLOORS = {"S1": 10, "S2": 1, "R1": 3, "R2": 3, "R3": 5, "S5": 4, "V1": 5}
+FLOORS = {"S1": 10, "S2": 1, "R1": 3, "R2": 3, "R3": 5, "S5": 4, "V1": 5, "S6": 1}
 
 CLASSES = ["Bisector", "Centroid", "LargestOfMaximum", "MeanOfMaximum", "SmallestOfMaximum"]
 REDUCERS = {"min": {"numpy.nanmin"}, "mean": {"numpy.nanmean"}, "max": {"numpy.nanmax"}}  # NaN-ignoring: the points that are not selected are NaN
@@ -76,6 +77,9 @@ def run(check: Check) -> None:
     centroid(check, infos["Centroid"])
     bisector(check, infos["Bisector"])
     midpoints(check)
+    from .common import unused_parameters
+
+    unused_parameters(check, "S6", set(CLASSES) | {"IntegralDefuzzifier"}, {"Operation.midpoints"})
     check.exhaustive_parts += ["sibling normal forms of the three maxima defuzzifiers"]
 
 
